@@ -8,10 +8,13 @@ NOTE = 'bounded claim; trusted: CPython semantics for character-moving operation
 
 CHECKS = {
     # id: (engine, level text, design ref, technique)
+    'C01': ('symtex', 'skeleton documents (cover of the documented-construct grammar) with symbolic TEXT/NAME holes: parse succeeds, str(soup)==src and every node text equals its source slice, for all hole values', 'DESIGN.md §5, §7 C01'),
+    'C02': ('symtex', 'same exploration as C01: the shape of the parse tree equals the generating syntax tree of the skeleton for all hole values', 'DESIGN.md §7 C02'),
     'C05': ('symtex', 'twin-hole documents: argument texts are symbolic so the solver itself chooses textually identical siblings; every target x edit compared with a string splice computed by node identity', 'DESIGN.md §7 C05'),
     'C06': ('symtex', 'all strings up to the length bound over all of Unicode, both tolerance modes: outcome is a tree or a diagnostic error on every feasible path', 'DESIGN.md §7 C06'),
     'C07': ('symtex', 'strict success implies an identical tolerant result, for all strings up to the length bound', 'DESIGN.md §7 C07'),
     'C08': ('symtex', 'alignment oracle (only blank runs before { or [ may disappear) discharged by z3 on every path of every parseable string up to the length bound', 'DESIGN.md §7 C08'),
+    'C13': ('symtex', 'recorded positions of all nodes/tokens equal the offsets obtained by mirroring the serialisers (skeleton cover); char_pos_to_line on all strings over {letter, LF} up to the bound; search_regex offsets for a modelled regex family', 'DESIGN.md §7 C13'),
     'C16': ('symtex', 're-parse of the serialised text gives identical text and shape, for every parseable string up to the length bound', 'DESIGN.md §7 C16'),
     'C18': ('symtex', 'all operation sequences up to the depth bound on free-standing and owner-attached TexArgs against a Python list of the same objects; group contents symbolic so duplicates are chosen by the solver', 'DESIGN.md §7 C18'),
     'C19': ('symtex', 'real categorize in direct mode (all code points per position) and tokenizer partition/offset assertions for all strings up to the length bound', 'DESIGN.md §7 C19'),
